@@ -98,6 +98,39 @@ def _file_chunk(chunk):
     return len(chunk), nt, fails
 
 
+def _int_chunk(chunk):
+    """option-file edits of an INTEGER option: a changed range (lower bound, upper bound or both) keeps the old value when it is
+    still inside and otherwise falls back to the new default; afterwards values are validated against the NEW range"""
+    from mesonbuild import options as O
+    from mesonbuild.utils.core import MesonException
+    K = O.OptionKey
+    fails, nt = [], 0
+    for user_val, new_min, new_max, new_default, probe in chunk:
+        st = O.OptionStore(False)
+        st.add_system_option('prefix', O.UserStringOption('prefix', 'd', '/usr/local'))
+        k = K('lvl', '')
+        st.add_project_option(k, O.UserIntegerOption('lvl', 'd', 3, min_value=0, max_value=10))
+        if user_val is not None:
+            st.set_option(k, user_val)
+        st.update_project_options({k: O.UserIntegerOption('lvl', 'd', new_default, min_value=new_min, max_value=new_max)}, '')
+        nt += 1
+        cur = user_val if user_val is not None else 3
+        case = {'user_value': user_val, 'new_min': new_min, 'new_max': new_max, 'new_default': new_default, 'probe': probe}
+        exp = cur if (new_min, new_max) == (0, 10) or new_min <= cur <= new_max else new_default
+        got = st.get_value_for(k)
+        if got != exp:
+            fails.append({'case': case, 'stage': 'option-file-int', 'detail': f'value {got} after the range became [{new_min}, {new_max}] (default {new_default}); expected {exp}'})
+            continue
+        try:
+            st.set_option(k, probe)
+            accepted = True
+        except MesonException:
+            accepted = False
+        if accepted != (new_min <= probe <= new_max):
+            fails.append({'case': case, 'stage': 'option-file-int', 'detail': f'-Dlvl={probe} is {"accepted" if accepted else "rejected"} although the range is now [{new_min}, {new_max}]'})
+    return len(chunk), nt, fails
+
+
 def run(REG, tier, seed, jobs):
     parts = []
     steps = [('D', v) for v in VALS] + [('Dsub', v) for v in VALS] + [('Usub', None)]
@@ -109,6 +142,10 @@ def run(REG, tier, seed, jobs):
     cases = [(u, ch, nd, rm, ad) for u in (None, 'b', 'c') for ch, nd in ((('a', 'b', 'c'), 'a'), (('a', 'b'), 'a'), (('b', 'c', 'd'), 'd'), (('x', 'y'), 'x')) for rm in (False, True) for ad in (False, True)]
     ev, nt, fails = pmap(_file_chunk, chunked(iter(cases), 8), jobs)
     parts.append({'name': 'C08/bounded/option-file-edits', 'function': 'OptionStore.update_project_options', 'bound': f'{len(cases)} edits: user value x new choice list/default x option removed x option added',
+                  'evaluations': ev, 'distinct_nontrivial': nt, 'rule': 'every case', 'exhaustive': True, 'failures': fails})
+    icases = [(u, mn, mx, nd, pr) for u in (None, 1, 8) for mn, mx in ((0, 10), (0, 5), (0, 20), (2, 10), (5, 20)) for nd in (mn, mx) for pr in (1, 4, 9, 15)]
+    ev, nt, fails = pmap(_int_chunk, chunked(iter(icases), 20), jobs)
+    parts.append({'name': 'C08/bounded/integer-range-edits', 'function': 'OptionStore.update_project_options / choices_are_different', 'bound': f'{len(icases)} edits of an integer option: user value x new [min, max] (only max, only min, both, none changed) x new default x a later -D probe',
                   'evaluations': ev, 'distinct_nontrivial': nt, 'rule': 'every case', 'exhaustive': True, 'failures': fails})
     return {'parts': parts}
 
